@@ -34,8 +34,18 @@ void harness(void) {
     if (comment == 1) { put('c'); put(' '); put('x'); put('\n'); }
     else if (comment == 2) { put('#'); put('\n'); }
     /* problem line: p edge N M */
+#ifdef FIXED_N
+    char N = (char) ('0' + FIXED_N);
+#else
     char N = digit(1, NMAX);
-    put('p'); put(' '); put('e'); put('d'); put('g'); put('e'); put(' '); put(N); put(' '); put(digit(0, 2)); put('\n');
+#endif
+    put('p'); put(' '); put('e'); put('d'); put('g'); put('e'); put(' '); put(N); put(' ');
+#ifdef FIXED_N
+    put('1');
+#else
+    put(digit(0, 2));
+#endif
+    put('\n');
     int U[EDGES], V[EDGES], wkind[EDGES], w1[EDGES], w2[EDGES];
     for (int i = 0; i < EDGES; i++) {
         int mid_comment = COMMENTS ? nondet_int() : 0;
